@@ -38,6 +38,8 @@ ALL_CLIENTS = sorted({c for v in FAMILIES.values() for c in v})
 LAYOUTS = [
     ("top", "core"), ("top", "shared.core"), ("top", "a.b.core"), ("top", "a.b.c.core"), ("top", "c1.core"),
     ("top", "c1.x.core"),
+    # core directory whose NAME merely starts with a client's directory name (not inside it)
+    ("top", "c1_core"), ("top", "c1x.core"),
     ("nested2", "core"), ("nested2", "clients.core"), ("nested2", "clients.shared.core"),
     ("nested2", "clients.alpha.core"),
     ("nested3", "x.core"), ("nested3", "x.y.core"), ("nested3", "shared.core"),
@@ -346,7 +348,7 @@ def main(chk, replay: dict | None = None) -> int:
     if chk.model_ok:
         codes = chk.coq_eval("From PG Require Import Lib.Strs Model.Registry Corr.C11.",
                              "(layout * list gen_call) * list obs1", [c_case(c) for c in cases], "run", shard=80)
-    chk.decide(cases, codes, {2: "F11b", 3: "F11c"},
+    chk.decide(cases, codes, {2: "F11b"},
                "Corr.C11.run: trace(model) = registry file, alias classes, per-client core imports and call outcome "
                "observed on disk after every generate call")
     return chk.finish(TRUSTED,
